@@ -378,12 +378,20 @@ impl FromMeta for syn::Path {
 
 impl FromMeta for syn::Ident {
     fn from_string(value: &str) -> Result<Self> {
-        syn::parse_str(value).map_err(|_| Error::unknown_value(value))
+        // Same grammar as the bare form: a one-segment path, see `from_expr`
+        syn::parse::Parser::parse_str(syn::Path::parse_mod_style, value)
+            .ok()
+            .and_then(|path| path.get_ident().cloned())
+            .ok_or_else(|| Error::unknown_value(value))
     }
 
     fn from_value(value: &syn::Lit) -> Result<Self> {
         if let syn::Lit::Str(ref v) = *value {
-            v.parse().map_err(|_| Error::unknown_lit_str_value(v))
+            // Same grammar as the bare form: a one-segment path, see `from_expr`
+            v.parse_with(syn::Path::parse_mod_style)
+                .ok()
+                .and_then(|path| path.get_ident().cloned())
+                .ok_or_else(|| Error::unknown_lit_str_value(v))
         } else {
             Err(Error::unexpected_lit_type(value))
         }
